@@ -38,6 +38,15 @@ from .common import (
 )
 
 
+def _ascii(untrusted):
+    """
+    Text of an untrusted value for diagnostics, ASCII-only (anything else is
+    backslash-escaped), so that printing it cannot fail whatever the value
+    contains and whatever the encoding of standard output is.
+    """
+    return str(untrusted).encode("ascii", "backslashreplace").decode("ascii")
+
+
 # TODO✅: Consider reversing this argument order?  What's more intuitive?
 def verify_root(trusted_current_root_metadata, untrusted_new_root_metadata):
     """
@@ -402,7 +411,7 @@ def verify_signable(signable, authorized_pub_keys, threshold, gpg=False):
             # TODO: ✅ Make this a warning instead.
             print(
                 'Ignoring signature from "key" with public key value that '
-                "does not look like a key value: " + str(pubkey_hex)
+                "does not look like a key value: " + _ascii(pubkey_hex)
             )
             continue
 
@@ -410,7 +419,7 @@ def verify_signable(signable, authorized_pub_keys, threshold, gpg=False):
             # TODO: ✅ Make this a warning instead.
             print(
                 'Ignoring "signature" that does not look like a gpg '
-                "signature value: " + str(signature)
+                "signature value: " + _ascii(signature)
             )
             continue
 
@@ -418,7 +427,7 @@ def verify_signable(signable, authorized_pub_keys, threshold, gpg=False):
             # TODO: ✅ Make this an INFO-level log message.
             print(
                 'Ignoring signature from a key ("'
-                + str(pubkey_hex)
+                + _ascii(pubkey_hex)
                 + '") that is not authorized to sign this metadata.'
             )
             continue
@@ -428,7 +437,7 @@ def verify_signable(signable, authorized_pub_keys, threshold, gpg=False):
                 # TODO: ✅ Make this a warning instead.
                 print(
                     'Ignoring "signature" that does not look like a hex '
-                    "signature value: " + str(signature)
+                    "signature value: " + _ascii(signature)
                 )
                 continue
 
